@@ -49,6 +49,9 @@ POOL = [
     "function h2 ( int x ) -> int { return h4 ( x ) + 2 ; }\nfunction h3 ( int x ) -> int { return x * 3 ; }\nfunction h4 ( int x ) -> int { return x - 4 ; }\n",
     "export function f ( float a ) -> float { return zed ( a ) + alpha ( a ) + mid ( a ) ; }\nfunction mid ( float x ) -> float { return alpha ( x ) ; }\n"
     "function alpha ( float x ) -> float { return x ; }\nfunction zed ( float x ) -> float { return mid ( x ) * 2.0 ; }\n",
+    # non-exported functions taking / returning struct types
+    "struct S { float a ; int b ; }\nfunction h ( S s ) -> float { return s . a ; }\nfunction h ( S s , int k ) -> float { return s . a + k ; }\n"
+    "export function f ( float x ) -> float { S l ; l . a = x ; l . b = 2 ; return h ( l ) + h ( l , 3 ) ; }\n",
     # parameters without a name
     "function h ( float v , int ) -> float { return v ; }\nexport function f ( float a , int ) -> float { return h ( a , 2 ) ; }\n",
     "export function f ( int , float , int c ) -> int { return c + 1 ; }\nfunction g ( float2 ) -> int { return 3 ; }\n",
